@@ -150,3 +150,16 @@ pub fn ref_hexval(c: u8) -> Option<u8> {
 pub fn ref_is_hex(c: u8) -> bool { ref_hexval(c).is_some() }
 pub fn ref_hexdigit_upper(n: u8) -> u8 { if n < 10 { b'0' + n } else { b'A' + (n - 10) } }
 pub fn ref_upper(c: u8) -> u8 { if c >= b'a' && c <= b'z' { c - 32 } else { c } }
+
+// ---------------------------------------------------------------- body distance, word-shaped
+/// sum of the 32 dibit distances of two 64-bit words (dibit i = bits 2i..2i+1)
+pub fn ref_sub64(x: u64, y: u64) -> u32 {
+    let mut s = 0u32; let mut i = 0;
+    while i < 32 { s += ref_dibit_dist(((x >> (2 * i)) & 3) as u8, ((y >> (2 * i)) & 3) as u8); i += 1; }
+    s
+}
+pub fn ref_sub32(x: u32, y: u32) -> u32 {
+    let mut s = 0u32; let mut i = 0;
+    while i < 16 { s += ref_dibit_dist(((x >> (2 * i)) & 3) as u8, ((y >> (2 * i)) & 3) as u8); i += 1; }
+    s
+}
